@@ -33,6 +33,7 @@ def gen_keys(res, path):
 
 def run(tier, replay):
     res = wv.Result(PID, "exploration", tier)
+    wv.proofs(res, "Base64Proofs")
     exe = wv.build("h_b64", ["b64", "cli"], ["h_b64.cpp"])
     if replay:
         events = json.load(open(replay))["replay"]["events"]
